@@ -231,22 +231,50 @@ GOALS = {
                      {"a": "SetOther", "s": "s2", "t": "g1", "u": "u3", "mode": ["-"], "chan": False},
                      {"a": "SetOther", "s": "s2", "t": "g1", "u": "u1", "mode": ["J", "R"], "chan": False}]),
 }
+# goals on the p2p topic of u1 and u2 (used when the population has one)
+P2P_GOALS = {
+    "p2p_one_side_unsubscribed_live": ('st.topics["p12"].exists /\\ st.subs["p12"]["u1"].st = "del" /\\ st.subs["p12"]["u2"].st = "live" /\\ st.cache["p12"].loaded '
+                                       '/\\ st.cache["p12"].att # <<>> /\\ st.topics["p12"].seq > 0',
+                                       [{"a": "Pub", "s": "s1", "t": "p12", "c": "c1", "noecho": False, "chan": False},
+                                        {"a": "Note", "s": "s1", "t": "p12", "what": "recv", "seq": 1, "chan": False},
+                                        {"a": "Pub", "s": "s2", "t": "p12", "c": "c2", "noecho": False, "chan": False},
+                                        {"a": "Sub", "s": "s1", "t": "p12", "mode": ["-"], "chan": False, "bg": False},
+                                        {"a": "Pub", "s": "s1", "t": "p12", "c": "c1", "noecho": False, "chan": False}]),
+    "p2p_one_side_unsubscribed_unloaded": ('st.topics["p12"].exists /\\ st.subs["p12"]["u1"].st = "del" /\\ st.subs["p12"]["u2"].st = "live" /\\ ~st.cache["p12"].loaded '
+                                           '/\\ st.topics["p12"].seq > 0',
+                                           [{"a": "Sub", "s": "s1", "t": "p12", "mode": ["-"], "chan": False, "bg": False},
+                                            {"a": "Pub", "s": "s1", "t": "p12", "c": "c1", "noecho": False, "chan": False},
+                                            {"a": "Sub", "s": "s2", "t": "p12", "mode": ["-"], "chan": False, "bg": False},
+                                            {"a": "Pub", "s": "s2", "t": "p12", "c": "c2", "noecho": False, "chan": False}]),
+    "p2p_both_attached_with_history": ('st.topics["p12"].exists /\\ st.topics["p12"].seq > 1 /\\ Len(st.cache["p12"].att) >= 2',
+                                       [{"a": "Reload", "t": "p12"},
+                                        {"a": "Pub", "s": "s1", "t": "p12", "c": "c1", "noecho": True, "chan": False},
+                                        {"a": "Leave", "s": "s2", "t": "p12", "unsub": True, "chan": False},
+                                        {"a": "Pub", "s": "s1", "t": "p12", "c": "c2", "noecho": False, "chan": False},
+                                        {"a": "Pub", "s": "s2", "t": "p12", "c": "c1", "noecho": False, "chan": False}]),
+}
 
 
 def goal_behaviours(ctx, users, sess, topics, names=None, maxsubs=3):
     import concurrent.futures
-    names = names or list(GOALS)
+    goals = dict(GOALS)
+    p2p = "p12" in topics
+    if p2p:
+        goals.update(P2P_GOALS)
+    names = names or list(goals)
     consts = mc_consts(users, sess, topics, DEV_BUILT, ["-", "N", "JR", "JRS", "JRA", "JRASO"], ["-", "N", "JR", "JRS", "JRAS", "JRASO"],
                        ["NewGrp", "Sub", "Leave", "SetSelf", "SetOther", "DelSub", "DelTopic", "Unload"], [], maxsubs=maxsubs)
+    consts_p2p = mc_consts(users, sess, topics, DEV_BUILT, ["-"], ["-"], ["P2P"], [], maxseq=3, maxsubs=maxsubs)
 
     def one(name):
-        expr, tail = GOALS[name]
+        expr, tail = goals[name]
         mod = "Goal_" + name
-        defs = "\n".join("c_%s == %s" % (k, v) for k, v in consts.items())
+        cs = consts_p2p if name in P2P_GOALS else consts
+        defs = "\n".join("c_%s == %s" % (k, v) for k, v in cs.items())
         with open(os.path.join(ctx.specdir, mod + ".tla"), "w") as fh:
             fh.write("---- MODULE %s ----\nEXTENDS TopicCore_MC\n%s\nNotGoal == ~(%s)\n====\n" % (mod, defs, expr))
         with open(os.path.join(ctx.specdir, mod + ".cfg"), "w") as fh:
-            fh.write("CONSTANTS\n" + "\n".join("  %s <- c_%s" % (k, k) for k in consts) +
+            fh.write("CONSTANTS\n" + "\n".join("  %s <- c_%s" % (k, k) for k in cs) +
                      "\nINIT Init\nNEXT Next\nINVARIANT NotGoal\nVIEW StView\nCHECK_DEADLOCK FALSE\n")
         tj = os.path.join(ctx.scratch, mod + "_cex.json")
         r = ctx.tlc(mod, workers=4, timeout=300, extra=["-dumpTrace", "json", tj])
